@@ -200,7 +200,7 @@ def run_checks(specs, tier, seed):
              'bounds': sp.get('bounds', ''), 'functions': [demangle(f) for f in agg['fns'] if 'sml_rs' in f or 'crc' in f][:60],
              'samples': agg['samples'], 'validation': val if not results else {'vectors': val['vectors'], 'mismatches': []}, 'violations': [],
              'traces_validated': val['vectors'] if not results else 0,
-             'n_symbolic_bytes': sum(1 for c in sp['input'] if c == 'S'), 'input_len': len(sp['input'])}
+             'n_symbolic_bytes': sum(1 for c in sp['input'] if c == 'S' or isinstance(c, (list, tuple))), 'input_len': len(sp['input'])}
         incon = []
         if not agg['complete'] and not agg['violations']:
             incon.append('exploration incomplete after %ss (%d paths done, %d prefixes left)' % (agg['wall_s'], agg['paths'], agg['left']))
